@@ -151,6 +151,46 @@ def run_instance(inst, tier):
 
     laws = [expected_split(t, probs, fp, r) for r in ranges]
     ok = one("split_degree", base, laws, "split", {})
+    # object histories (once per range shape): (a) a second loader with another range is built while the first is still
+    # in use - the first one's table must not change; (b) the caller's probability list is edited in place and the
+    # table rebuilt with create_jdd - the table must follow the new probabilities
+    if ok and t >= 2 and inst["fp"] == "2^-k" and hi - lo >= 2:
+        for kind in ("split_degree", "delta"):
+            res.executions += 2
+            try:
+                plist = [float(p) for p in probs]
+                pa = dict(base)
+                pa[JN.PROBS] = plist
+                if kind == "delta":
+                    pa[JN.TARGET_K] = lo + 1
+                first = build(kind, pa, "direct")
+                lawa = [expected_split(t, probs, fp, r, target=(lo + 1 if kind == "delta" else None)) for r in ranges]
+                pb = dict(pa)
+                pb[JN.PROBS] = list(reversed(plist)) if plist[-1] > 0 else list(plist)   # p_1 > 0 is part of the box
+                pb[JN.LOW_HIGH_DEGREE_BOUND] = (lo + 1, hi + 2)
+                build(kind, pb, "direct")
+                bad = compare(first.jdd, lawa, kind)
+                if bad:
+                    res.violation(f"C07:{kind}:changed-by-another-loader", f"{kind} t={t} probs={inst['probs']} "
+                                  f"range=({lo},{hi}): after a second loader (range ({lo + 1},{hi + 2})) was built the "
+                                  f"first one's table is wrong: {bad[1]}", desc, kind=kind)
+                    break
+                rev = list(reversed(probs))
+                if rev[0] > 0:
+                    plist[:] = [float(p) for p in rev]
+                    first.create_jdd()
+                    lawr = [expected_split(t, rev, fp, r, target=(lo + 1 if kind == "delta" else None)) for r in ranges]
+                    bad = compare(first.jdd, lawr, kind)
+                    if bad:
+                        res.violation(f"C07:{kind}:stale-after-probs-edited", f"{kind} t={t} range=({lo},{hi}): the "
+                                      f"probability list was edited in place from {inst['probs']} to its reverse and "
+                                      f"create_jdd called again: {bad[1]}", desc, kind=kind)
+                        break
+                    res.flags.add("probs-edited-in-place")
+            except Exception as e:
+                res.violation(f"C07:{kind}:history-raises", f"{kind} t={t} probs={inst['probs']} range=({lo},{hi}): {e!r}",
+                              desc, kind=kind)
+                break
     if hi - lo >= 2 and t >= 2:
         res.nontrivial.add(("split", t, tuple(inst["probs"]), lo, hi, inst["fp"]))
         res.flags.add("split-multi-degree")
